@@ -89,6 +89,17 @@ def pattern_variants(pb, name, sparse):
             drop = last[-1]
             d = {(i, j): M[i][j] + (2 if i == j else 0) for (i, j) in pat if (i, j) != drop}
             out.append(("colnnz-1", "P %s" % G.mat_tokens(d, n, n)))
+            # the same deficient column hidden behind a surplus in EARLIER columns (full symmetric storage plus explicit entries in the
+            # lower part of column 0): total and cumulative counts are large enough, only the per-column count of the last column is not
+            if n >= 2:
+                d2 = {}
+                for (i, j) in pat:
+                    v = M[i][j] + (2 if i == j else 0)
+                    d2[(i, j)] = v; d2[(j, i)] = v
+                for i in range(1, n): d2.setdefault((i, 0), Fr(1, 2))
+                if drop[0] != drop[1]: d2.pop((drop[1], drop[0]), None)   # keeps column drop[0] unchanged in its upper part
+                d2.pop(drop, None)
+                out.append(("colnnz-1-padded", "P %s" % G.mat_tokens(d2, n, n)))
     return out
 
 def update_injections(rng, pb, sparse, styles=("alone", "with-all")):
@@ -356,6 +367,16 @@ def run(ctx):
     except Exception as ex:
         ctx.notes.append("translator structure unavailable for the search (%s): built-in verify_settings list used" % str(ex)[:200])
     if not terms: terms = list(FALLBACK_TERMS)
+    # "invalid settings" is the documented contract (Settings::verify_settings at the pinned commit = FALLBACK_TERMS), not whatever the
+    # current source happens to reject: the values injected come from the UNION of both lists, and a source whose validation differs
+    # from the contract is a broken tie by itself (a weakened check would otherwise define its own faults away)
+    def _key(t):
+        try: return (t[0], t[1], Fr(t[2]))
+        except Exception: return (t[0], t[1], t[2])
+    have = {_key(t) for t in terms}; want = {_key(t) for t in FALLBACK_TERMS}
+    ctx.ob("contract:verify_settings-matches-documented-contract", "translator", have == want,
+           "" if have == want else "only in source: %s; only in contract: %s" % (sorted(map(str, have - want)), sorted(map(str, want - have))))
+    terms = list(terms) + [t for t in FALLBACK_TERMS if _key(t) not in have]
 
     thorough = not ctx.quick()
     backends = ["dense", "sparse"] + (["sparse_eq", "sparse_ineq", "sparse_all"] if thorough else [])
